@@ -79,6 +79,21 @@ Theorem C10_fan_sender_order : forall n progs sched t, let '(s, ts) := frun sche
 Proof. exact fan_sender_order. Qed.
 Print Assumptions C10_fan_sender_order.
 
+(* the queue the backends feed from their callback threads (ParserQueue, model ConcPQ.v), ANY number of feeding and polling threads, ANY
+   programs (chunks of whole messages), ANY schedule: the queue is first-in first-out and loses or invents nothing, and each feeding thread's
+   messages enter it in the order that thread fed them; with the lock not held across feed-and-put another thread's message gets in between *)
+Require Import Mido.Model.ConcPQ Mido.Proofs.ConcPQProofs.
+Theorem C10_pq_fifo : forall progs sched, let s := fst (qrun true sched (qinit progs)) in map snd (qlog s) = qpolled s ++ qqueue s.
+Proof. exact pq_fifo. Qed.
+Print Assumptions C10_pq_fifo.
+Theorem C10_pq_feeder_order : forall progs sched t, let '(s, ts) := qrun true sched (qinit progs) in qfeeds (progs t) = mine t (qlog s) ++ qpending (ts t).
+Proof. exact pq_feeder_order. Qed.
+Print Assumptions C10_pq_feeder_order.
+Theorem C10_pq_unlocked_interleaves :
+  map snd (qlog (fst (qrun false [0; 0; 1; 1; 0; 1; 0]%nat (qinit (fun t => match t with 0%nat => [QPut [pq_a; pq_b]] | 1%nat => [QPut [pq_c]] | _ => [] end))))) = [pq_a; pq_c; pq_b].
+Proof. exact pq_unlocked_interleaves. Qed.
+Print Assumptions C10_pq_unlocked_interleaves.
+
 (* "What is received is a copy": objects with identity on a heap, a caller that creates, edits and sends, a port with ANY number of queues
    (one: EchoPort / IOPort / device; several: MultiPort fan-out, one per sub-port), receivers that pop and edit - for EVERY history:
    each received object holds the value the sent object had when it was sent (or what its receiver wrote since), each caller object what
